@@ -472,3 +472,40 @@ Proof.
   - rewrite repeat_length, L. reflexivity.
   - apply Forall_forall. intros x Hx. apply repeat_spec in Hx. subst x. reflexivity.
 Qed.
+
+(** ---------- purge: every file the temporary file goes through decodes to a prefix of the kept entries ---------- *)
+Lemma data_part_app a b : data_part (a ++ b) = data_part a ++ data_part b.
+Proof. unfold data_part. apply flat_map_app. Qed.
+
+Theorem purge_steps_decode n128 : forall (todo done : list sentry),
+  1 <= n128 -> (length (done ++ todo) <= cap_of n128)%nat -> Forall entry_ok (done ++ todo) ->
+  hdr_size n128 + N.of_nat (length (data_part (done ++ todo))) < 2 ^ 64 ->
+  map decode_file (purge_steps n128 done todo (file_bytes n128 done)) = purge_views n128 done todo /\
+  last (file_bytes n128 done :: purge_steps n128 done todo (file_bytes n128 done)) [] = file_bytes n128 (done ++ todo).
+Proof.
+  induction todo as [|e t IH]; intros done Hn Hlen Hok Hsz.
+  - cbn [purge_steps purge_views map last]. rewrite app_nil_r. split; reflexivity.
+  - cbn [purge_steps purge_views]. cbv zeta.
+    assert (Hl1 : (length done < cap_of n128)%nat) by (rewrite app_length in Hlen; cbn [length] in Hlen; lia).
+    apply Forall_app in Hok. destruct Hok as [Hd Ht]. inversion Ht as [|? ? He Ht']; subst.
+    assert (Hsz1 : hdr_size n128 + N.of_nat (length (data_part (done ++ [e]))) < 2 ^ 64).
+    { rewrite data_part_app in Hsz. rewrite data_part_app. rewrite !app_length in *.
+      cbn [data_part flat_map] in *. rewrite app_nil_r. rewrite app_length in Hsz. lia. }
+    pose proof (append_steps_decode n128 done e [] Hn Hl1 Hd He Hsz1) as D.
+    rewrite <- file_bytes_gen in D.
+    rewrite (append_final_layout n128 done e Hl1).
+    replace (done ++ e :: t) with ((done ++ [e]) ++ t) in * by (rewrite <- app_assoc; reflexivity).
+    destruct (IH (done ++ [e]) Hn Hlen) as [I1 I2].
+    { apply Forall_app. split; [apply Forall_app; split; [exact Hd|constructor; [exact He|constructor]]|exact Ht']. }
+    { exact Hsz. }
+    split.
+    + rewrite map_app, D, I1. reflexivity.
+    + rewrite <- I2.
+      (* the last file of the whole sequence is the last of the tail sequence *)
+      set (fs := append_steps n128 done e (file_bytes n128 done)).
+      assert (Efs : exists a b, fs = [a; b; file_bytes n128 (done ++ [e])]).
+      { unfold fs, append_steps. cbv zeta. eexists. eexists. f_equal. f_equal. f_equal.
+        pose proof (append_final_layout n128 done e Hl1) as F. unfold append_steps in F. cbv zeta in F. cbn [nth] in F. exact F. }
+      destruct Efs as [a [b Efs]]. rewrite Efs. cbn [app last].
+      destruct (purge_steps n128 (done ++ [e]) t (file_bytes n128 (done ++ [e]))); reflexivity.
+Qed.
